@@ -156,6 +156,15 @@ def invalid_ops(rm, extras, full=True):
                 ops.append(py("m.%s.x.formula = %r" % (s, f), r))
         ops.append(py("m.%s.new_cells('bad', formula=5)" % s, r))
         ops.append(py("m.%s.new_space('Dbad', formula='lambda i: (')" % s, r))
+        # a space that already has a parameter formula (and an ItemSpace)
+        ops.append(py("m.%s.formula = 'lambda i: ('" % s, r, setup="m.%s.formula = 'lambda i: None'; m.%s[1]" % (s, s)))
+        ops.append(py("m.%s.formula = 5" % s, r, setup="m.%s.formula = 'lambda i: None'" % s))
+        if "x" in rm.cells_of(s):
+            # malformed formulas that are not strings
+            ops.append(py("m.%s.x.formula = 5" % s, r))
+            ops.append(py("m.%s.x.formula = len" % s, r))
+            ops.append(py("m.%s.x.formula = (lambda: 1, lambda: 2)[0]" % s, r))
+            ops.append(py("m.%s.x.set_formula(3.5)" % s, r))
     # 7. unassignable values
     r = "unassignable"
     for s in (spaces if full else []):
@@ -173,6 +182,8 @@ def invalid_ops(rm, extras, full=True):
         ops.append(py("m.C.k = None", r))
         ops.append(py("m.A.z[1, 2] = 3", r))
         ops.append(py("m.A.T.tc.value = None", r, setup="m.A.T.tc.allow_none = False"))
+        ops.append(py("m.C.k.formula = 5", "malformed-formula"))           # cells holding an input
+        ops.append(py("m.A.z.formula = len", "malformed-formula"))
     # 8. removing what is not a base, deleting what does not exist
     for s in spaces:
         for t in spaces:
